@@ -60,9 +60,18 @@ def extract(pkg_dir, crate, config="default", tag=None):
         "VERIF_CRATES": crate,
     })
     env.pop("RUSTC_WRAPPER", None)
+    env["CARGO_INCREMENTAL"] = "0"
     t0 = time.time()
-    p = subprocess.run(["cargo", "+nightly", "check", "--offline", "--quiet"] + args,
-                       cwd=pkg_dir, env=env, stdout=subprocess.PIPE, stderr=subprocess.STDOUT, text=True)
+    cmd = ["cargo", "+nightly", "check", "--offline", "--quiet"] + args
+    p = subprocess.run(cmd, cwd=pkg_dir, env=env, stdout=subprocess.PIPE, stderr=subprocess.STDOUT, text=True)
+    if p.returncode != 0 and "error: could not compile" in p.stdout and "error[E" not in p.stdout:
+        # not a compile error of the crate (e.g. a transient compiler failure): retry once from a clean member state
+        for root, dirs, _ in os.walk(tdir):
+            if os.path.basename(root) in (".fingerprint", "incremental"):
+                for d in dirs:
+                    if d.startswith(crate.replace("_", "-") + "-") or d.startswith(crate + "-"):
+                        shutil.rmtree(os.path.join(root, d), ignore_errors=True)
+        p = subprocess.run(cmd, cwd=pkg_dir, env=env, stdout=subprocess.PIPE, stderr=subprocess.STDOUT, text=True)
     dt = time.time() - t0
     if p.returncode != 0:
         raise ExtractError("cargo check failed (%s):\n%s" % (config, p.stdout[-4000:]))
